@@ -130,6 +130,27 @@ def check(run: Run) -> None:
             failures += 1
             run.report("C16/null", {**c.describe(), "ops": [{"op": "dereference of a default pointer", "observed": type(e).__name__, "expected": "NullPointerDereference"}]})
 
+    # char *: the target is the NUL-terminated string at the address, whatever its length (block boundaries of buffered readers: 63..65, 127..129)
+    for ln in (0, 1, 2, 63, 64, 65, 127, 128, 129, 200, 300):
+        for compiled in (False, True):
+            body = bytes((i % 250) + 1 for i in range(ln))
+            data = (4).to_bytes(2, "little") + b"\xEE\xEE" + body + b"\x00" + b"tail\x00"
+            cs = structs.load("struct main { char *p; uint16 k; };", endian="<", pointer="uint16", compiled=compiled)
+            n_oracle += 1
+            stream = io.BytesIO(data)
+            try:
+                v = cs.main(stream)
+                pos = stream.tell()
+                got = v.p.dereference()
+                again = v.p.dereference()
+                prob = None if (bytes(got) == body and bytes(again) == body and stream.tell() == pos) else {"observed": [bytes(got).hex()[:80], len(got), stream.tell()], "expected": [body.hex()[:80], ln, pos]}
+            except Exception as e:  # noqa: BLE001
+                prob = {"observed": repr(e)[:200], "expected": f"the {ln}-byte string"}
+            if prob:
+                failures += 1
+                run.report("C16/char-target", {"definition": "struct main { char *p; uint16 k; };", "cstruct_kwargs": {"endian": "<", "pointer": "uint16"}, "load_kwargs": {"compiled": compiled, "align": False},
+                                               "ops": [{"op": "dereference of char * at address 4", "string_length": ln, "data": data.hex(), **prob}]})
+
     # the pointer width follows the configuration that is current when a definition is loaded
     for pw1, pw2 in [("uint64", "uint16"), ("uint16", "uint32"), ("uint32", "uint8"), ("uint8", "uint64")]:
         for compiled in (False, True):
